@@ -18,7 +18,9 @@ const PATHS: &[&str] = &[
 const HOST_PATTERNS: &[&str] = &["example.com", "*.example.com", "a.*", "*:8080", "localhost", "*.com", "ex*le.com", "é.example.com",
                                  "Api.Example.com", "*.Example.COM", "LOCALHOST", "É.example.com",
                                  // the absolute form of a name (trailing dot) is a different string
-                                 "example.com.", "*.example.com."];
+                                 "example.com.", "*.example.com.",
+                                 // patterns that match the EMPTY string: a request WITHOUT a Host header still goes to the default app
+                                 "", "**"];
 const HOSTS: &[&str] = &["", "example.com", "a.example.com", "a.b.example.com", "example.com:8080", "localhost", "other.org", "a.x", "é.example.com", "EXAMPLE.COM",
                          "Api.Example.com", "api.example.com", "API.EXAMPLE.COM", "x.Example.COM", "x.example.com", "LOCALHOST", "Localhost", "É.example.com",
                          "example.com.", "a.example.com.", "example.com.:8080", "."];
